@@ -233,7 +233,9 @@ def matrix_scenario(engine, outs, fault, shape, policy, fan, idx):
         s1["empty_pos_at"] = int(fname[-1])
     store_faults = []
     if fname.startswith("store-"):
-        store_faults = [{"op": farg, "at": int(fname[-1]), "key": "connector:instance:s1" if farg == "set" else "",
+        # the k-th write of the SOURCE's position: its Set, or the commit of the transaction that carries it;
+        # (a failing begin cannot be tied to a key: it is the k-th transaction after the first record left the source)
+        store_faults = [{"op": farg, "at": int(fname[-1]), "key": "connector:instance:s1" if farg in ("set", "commit") else "",
                          "after_emit": True}]
     if fname.startswith(("store-", "emptypos", "ackfail")):
         # the later records must already be in flight when the ack of an earlier one fails: the
